@@ -34,7 +34,7 @@ func init() {
 		ID:      "C13",
 		Level:   "other",
 		Explain: "Decides, for the mutation API: (P) count/attach balance on every path of every mutator; (L) link symmetry on every path, including each iteration of SortChildren; (D) detach-before-attach; (N) a reference node that one insertion method accepts as nil is never dereferenced unguarded by its sibling; (W) raw setters only inside package ast. For Walk: (K) a finite-state check of the walker helper over the abstract outcomes {error, Stop, SkipChildren, Continue}: the first event is walker(n, true); after an error or Stop no further call happens and that error (with the walker's status or Stop) is returned; children are visited only when the status is not SkipChildren, in a loop from FirstChild along NextSibling, each recursive result is tested; exactly one walker(n, false) follows and its error/Stop is propagated; otherwise (Continue, nil). Does NOT decide SortChildren's ordering (depends on the comparator) or insertion into a node's own subtree (excluded by the statement).",
-		Rules:   append(append([]func(*World, *Report){}, treeRules...), ruleWalkProtocol, ruleSortInsertionPoint, ruleEndsFollowRemoval),
+		Rules:   append(append([]func(*World, *Report){}, treeRules...), ruleWalkProtocol, ruleSortInsertionPoint, ruleEndsFollowRemoval, ruleMutatorsDetachOnlyTheirOwn),
 	})
 }
 
